@@ -8,7 +8,7 @@ MANIFEST = {
             "(the physical line after a statement's directive has the statement's source position, whatever surrounds it), C09_stmt_lines_partial (following "
             "lines count on while no text line is read as a directive) and C09_func_entry_partial (directive at the doc comment + n doc lines puts `func` at its "
             "source line). The property itself (runtime position of the first call of every statement and of function entry in the BUILT program) is not proved: "
-            "it is checked on generated multi-line programs (33 statement kinds incl. if/else-if/for/range/switch/type switch/select bodies, closures, lambdas, "
+            "it is checked on generated multi-line programs (52 statement forms / 88 probe kinds incl. if/else-if/for/range/switch/type switch/select bodies, closures, lambdas, "
             "multi-line calls and literals, raw strings, local var/const/type declarations with //- and /*-style doc comments, methods, class files, shadow main) "
             "statically on the generated Go (go/parser positions of every probe call and func keyword) and at run time (runtime.Caller / FuncForPC entry line).",
     "note": "The model covers the directive reader and the layout only; that gogen/go-printer place the first call of a statement on the line right after its "
@@ -20,7 +20,7 @@ MANIFEST = {
 }
 
 RULE = ("per case one generated XGo package (main file with 1-3 functions, 0-2 methods, optional .gox class file with 1-2 methods, top-level statements; each body 2-6 random "
-        "statements of 33 kinds nested to depth 2, with comments / blank lines / block comments between statements), compiled with file-line ON, 2/3 with parser.ParseComments "
+        "statements of 52 forms (88 probe kinds: the first call of every statement plus calls in every expression position written on its first line, incl. for-in/comprehension filters, init statements, tags, case lists, select operands, defer/go arguments, lambda bodies, literal elements, multi-value returns) nested to depth 2, with comments / blank lines / block comments between statements), compiled with file-line ON, 2/3 with parser.ParseComments "
         "(as the xgo tool) and 1/3 without (x/build); every probe is the first call of its statement; + per program 3 posfor cases (the Go file as is and 2 copies "
         "with 45% of the directives rewritten into 28 other, mostly malformed, shapes) + 5 hand-written directive corner cases; the first 6 (thorough 60) programs are built and run; "
         "non-trivial = distinct generated Go file with >= 1 directive")
